@@ -83,16 +83,19 @@ UFWrite(uf, n) ==
 
 (* ---- write(logContainer): same back-pressure predicate (signed difference since the fix of F7) ---- *)
 UFWriteCPred(uf) == uf.abort \/ (uf.p - uf.g) < uf.buf \/ uf.p < uf.dem
-UFWriteC(uf, m) ==
-  [uf EXCEPT !.data = Append(@, [pos |-> uf.p, size |-> m]), !.p = @ + m]
-  \* notifies tellpChanged; the declared end is NOT shifted here
-
 (* ---- nextLogContainer: close the container holding p if something was written into it ---- *)
 UFNextLogContainer(uf) ==
   LET i == Containing(uf.data, uf.p) IN
   IF i # 0 /\ uf.p - uf.data[i].pos > 0
     THEN [uf EXCEPT !.data[i].size = uf.p - uf.data[i].pos]
     ELSE uf
+
+(* the container open at the put position is closed first (since the fix of F14: before, the appended
+   container overlapped it and reads in the overlap returned the old container's zeros) *)
+UFWriteC(uf, m) ==
+  LET u == UFNextLogContainer(uf) IN
+  [u EXCEPT !.data = Append(@, [pos |-> u.p, size |-> m]), !.p = @ + m]
+  \* notifies tellpChanged; the declared end is NOT shifted here
 
 (* ---- dropOldData: every front container that is consumed completely (triple guard) ---- *)
 RECURSIVE DropLoop(_, _, _, _)
